@@ -2,6 +2,7 @@
 # Re-runs every kept seeded change (4 workers, each with its own scratch worktree) and every benign refactoring (4 workers).
 # Output: /tmp/seed_regress.<k>.log, /tmp/benign_regress.log.  Exit 0 iff all seeds are caught, all benign patches and the clean tree silent.
 cd /verif
+export NV_FACT_SETS=200
 tags=($(ls seeded | grep -E '^C[0-9]+_[0-9]+$' | sort))
 n=${#tags[@]}; k=4; rc=0; pids=()
 for i in $(seq 0 $((k-1))); do
